@@ -4,6 +4,7 @@ package main
 
 import (
 	"fmt"
+	"regexp"
 	"strings"
 
 	"slogverif/seq"
@@ -162,8 +163,13 @@ func (e *enumerator) matchers() {
 		)
 	}
 	for _, op := range opOrder {
+		if op == "glob" {
+			e.rekey = globRekey
+		}
 		e.leafGroup("match/"+op, byOp[op], func([]*Step) []*Rec { return vals })
+		e.rekey = nil
 	}
+	e.globSystematic()
 
 	// AND of two conditions on two fields
 	var configs [][]*Step
@@ -184,6 +190,104 @@ func (e *enumerator) matchers() {
 	}
 	vals = append(vals, rec("ab", "T0", "", "ab"))
 	e.leafGroup("match/and", configs, func([]*Step) []*Rec { return vals })
+}
+
+// globRekey splits glob mismatches into classes by features of the pattern and of the value (the matcher is a
+// third-party library with several independent defects; one key per feature set keeps them apart).
+func globRekey(prog []*Step, in *Rec, key string) string {
+	if !strings.HasSuffix(key, "mismatch:match/glob") {
+		return key
+	}
+	var pattern string
+	walk(prog, func(s *Step) {
+		for _, c := range s.M {
+			if c.Op == "glob" {
+				pattern = c.Arg
+			}
+		}
+		for _, cs := range s.Cases {
+			for _, c := range cs.M {
+				if c.Op == "glob" {
+					pattern = c.Arg
+				}
+			}
+		}
+	})
+	value := in.F[fLvl]
+	depth, starInBraces := 0, false
+	for i := 0; i < len(pattern); i++ {
+		switch pattern[i] {
+		case '\\':
+			i++
+		case '{':
+			depth++
+		case '}':
+			depth--
+		case '*':
+			if depth > 0 {
+				starInBraces = true
+			}
+		}
+	}
+	multibyte := false
+	for i := 0; i < len(value); i++ {
+		if value[i] >= 0x80 {
+			multibyte = true
+		}
+	}
+	// one class per suspected root cause, by priority
+	class := "other"
+	switch {
+	case starInBraces:
+		class = "star-inside-alternatives"
+	case strings.Contains(pattern, "?") && multibyte:
+		class = "question-mark-vs-multibyte-value"
+	case strings.Contains(pattern, "?") && value == "":
+		class = "question-mark-vs-empty-value"
+	case globLiteralStarLiteral.MatchString(pattern):
+		class = "star-between-literals"
+	}
+	return key + ":" + class
+}
+
+var globLiteralStarLiteral = regexp.MustCompile(`^[a-z]+\*+[a-z]+$`)
+
+// globSystematic: every glob made of 1..3 (quick) / 1..4 (thorough) tokens x every value over {a,b,é} up to length 4.
+func (e *enumerator) globSystematic() {
+	tokens := []string{"a", "b", "*", "?", "[ab]", "{a,b}", "{a*,b}", "**"}
+	maxTok := 3
+	if e.ctx.Thorough() {
+		maxTok = 4
+	}
+	var vals []*Rec
+	var gen func(prefix string, n int)
+	gen = func(prefix string, n int) {
+		vals = append(vals, rec("m", "T0", "X", prefix))
+		if n == 0 {
+			return
+		}
+		for _, c := range []string{"a", "b", "é"} {
+			gen(prefix+c, n-1)
+		}
+	}
+	gen("", 4)
+	var configs [][]*Step
+	var pat func(prefix string, n int)
+	pat = func(prefix string, n int) {
+		if prefix != "" {
+			configs = append(configs, one(&Step{K: KIf, M: Match{{"lvl", "glob", prefix}}, Then: one(hit())}))
+		}
+		if n == 0 {
+			return
+		}
+		for _, t := range tokens {
+			pat(prefix+t, n-1)
+		}
+	}
+	pat("", maxTok)
+	e.rekey = globRekey
+	e.leafGroup("match/glob", configs, func([]*Step) []*Rec { return vals })
+	e.rekey = nil
 }
 
 // ---------------------------------------------------------------------------------------------------------------------
